@@ -336,6 +336,36 @@ def scripted_histories(ctx, lc, defaults, tid0):
         ask(2, "deltaMaxPerm", None)
         ask(1, kind, name)
         trs.append({"tid": tid0 + len(trs), "ev": ev})
+    # phosphosites set, the derived values read, the sites cleared and as many *other* sites set, the derived values read again
+    for s in ["GSTYSGKE", "KSEETKGY", "SKTEYGSE"] + ["".join(rng.choice("STYKEGDR") for _ in range(rng.randint(8, 24))) for _ in range(ctx.pick(4, 20))]:
+        sty = [k + 1 for k, ch in enumerate(s) if ch in "STY"]
+        if len(sty) < 2:
+            continue
+        defaults.reset()
+        objs = {1: lc.SP(s)}
+        ev = []
+
+        def post():
+            return {"objs": [dict(objmodel.project(objs[i])) if i in objs else {"alive": False} for i in (1, 2, 3)], "spGrps": defaults.sp_groups()}
+
+        def ask(o, kind, name):
+            real = objmodel.one_call(objs[o], kind, name)
+            fresh = objmodel.fresh_reply(lc, defaults, objs[o], kind, name)
+            ctx.evaluations += 1
+            ev.append({"kind": kind, "obj": o, "name": name or kind, "reply": fresh if objmodel.same_reply(real, fresh) else real, "fresh": fresh, "post": post()})
+        ev.append({"kind": "construct", "obj": 1, "seq": list(s), "post": post()})
+        k_ = rng.randint(1, min(2, len(sty) // 2))
+        s1 = rng.sample(sty, k_)
+        s2 = rng.sample([x for x in sty if x not in s1], k_)
+        for sites_ in (s1, s2, s1):
+            common.call(objs[1].clear_phosphosites)
+            ev.append({"kind": "clear_phosphosites", "obj": 1, "post": post()})
+            common.call(objs[1].set_phosphosites, list(sites_))
+            ev.append({"kind": "set_phosphosites", "obj": 1, "arg": list(sites_), "post": post()})
+            ask(1, "kappaPhos", None)
+            ask(1, "derived", "get_full_phosphostatus_kappa_distribution")
+            ask(1, "phospho", "get_phosphosequence")
+        trs.append({"tid": tid0 + len(trs), "ev": ev})
     return trs
 
 
